@@ -471,6 +471,14 @@ Qed.
 
 (* ---- narrowness: without NUM_ROWS, late_rows_fit is also necessary ---------------------------------- *)
 
+Lemma In_skipn_le : forall {A} (l : list A) a n x, a <= n -> In x (skipn n l) -> In x (skipn a l).
+Proof.
+  induction l as [|y l IH]; intros a n x Hle H.
+  - destruct n; contradiction.
+  - destruct a as [|a]; [eapply In_skipn; exact H|].
+    destruct n as [|n]; [lia|]. cbn [skipn] in *. eapply IH; [|exact H]. lia.
+Qed.
+
 Lemma ffner_offset_le : forall rows off r, find_first_non_empty_row rows = (off, r) -> off <= length rows.
 Proof.
   intros rows off r H. destruct (ffner_spec _ _ _ H) as [[_ [-> _]]|[k [-> [Hk _]]]]; [lia|].
@@ -501,9 +509,7 @@ Proof.
   unfold csv_data_rows, take_rows. replace (0 <? o_num_rows o)%Z with false by (symmetry; apply Z.ltb_ge; exact Hn).
   unfold csv_offset. destruct (header_decision isnum o g) as [off hs] eqn:Ed. cbn [fst].
   pose proof (decision_offset_le _ _ _ _ _ Ed) as Hoff.
-  replace sample_len with (off + (sample_len - off)) in Hr by lia.
-  rewrite <- skipn_skipn in Hr. rewrite Nat.add_comm in Hr. rewrite <- skipn_skipn in Hr.
-  eapply In_skipn. exact Hr.
+  eapply In_skipn_le; eassumption.
 Qed.
 
 (* ---- decision procedures for the hypotheses, witnesses ---------------------------------------------- *)
